@@ -302,8 +302,8 @@ pub fn sinc_fidelity_cfg() -> BoxedStrategy<Config> {
 }
 
 pub fn fft_fidelity_cfg(max_block: usize) -> BoxedStrategy<Config> {
-    (any::<bool>(), 0u8..3, rate_pair_strategy(max_block.min(640)), 32usize..4096, 1usize..=4)
-        .prop_map(move |(f32, variant, rates, chunk, sub)| {
+    (any::<bool>(), 0u8..3, rate_pair_strategy(max_block.min(640)), 32usize..4096, 1usize..=4, prop_oneof![1 => Just(0usize), 1 => 1usize..4096])
+        .prop_map(move |(f32, variant, rates, chunk, sub, jitter)| {
             let kind = [Kind::FftIn, Kind::FftOut, Kind::FftInOut][variant as usize];
             // ratio within [1/16, 16]; blocks of at least 64 and at most max_block points
             let (mut a, mut b) = rates;
@@ -319,7 +319,12 @@ pub fn fft_fidelity_cfg(max_block: usize) -> BoxedStrategy<Config> {
             let kmax = (max_block / mi.max(mo)).max(kmin);
             let want = (chunk / if kind == Kind::FftInOut { 1 } else { sub }).max(1);
             let k = ((want + per_min - 1) / per_min).clamp(kmin, kmax);
-            let chunk = k * per_min * if kind == Kind::FftInOut { 1 } else { sub };
+            let mut chunk = k * per_min * if kind == Kind::FftInOut { 1 } else { sub };
+            // half of the FixedIn / FixedOut cases: a chunk that is not a whole number of blocks (same block size), so
+            // that frames are parked between calls and the number of blocks per call varies
+            if kind != Kind::FftInOut {
+                chunk += jitter % (per_min * sub);
+            }
             Config { kind, f32, rate_in: a, rate_out: b, chunk, sub_chunks: sub, ..Config::default() }
         })
         .boxed()
